@@ -1441,7 +1441,8 @@ class OpNcon(Op):
 def _bipartition(g, sa):
     nd = sa.ndim
     p = list(range(nd))
-    g.rng.shuffle(p)
+    if g.rng.random() < 0.6:      # native order kept often: the no-copy fast paths of merging
+        g.rng.shuffle(p)
     k = g.rng.randint(1, nd - 1)
     return [p[:k], p[k:]]
 
@@ -1484,19 +1485,17 @@ class OpSvd(Op):
     readback = True
 
     def nout(self, rec):
-        return 3 if rec["args"]["kind"] == "svd" else 2
+        return {"svd": 3, "qr": 2, "svdvals": 1}[rec["args"]["kind"]]
 
     def gen(self, g):
         a = g.pick_tensor(lambda s, v, sh: sh is not None and not sh.isdiag and sh.ndim >= 2 and len(sh.axes) <= 6 and v.size > 0)
         if a is None:
             return None
         sa = g.sh(a)
-        kind = g.rng.choice(["svd", "svd", "qr", "eigh"])
+        kind = g.rng.choice(["svd", "svd", "qr", "svdvals"])
         args = {"kind": kind, "axes": _bipartition(g, sa), "s": g.rng.choice([-1, 1])}
-        if kind == "svd":
+        if kind in ("svd", "svdvals"):
             args["nU"] = g.rng.random() < 0.5
-        if kind == "eigh":
-            return None
         return {"op": "svd", "in": [a], "args": args}
 
     def run(self, task, rec, ins):
@@ -1504,12 +1503,21 @@ class OpSvd(Op):
         ax = (tuple(ar["axes"][0]), tuple(ar["axes"][1]))
         if ar["kind"] == "svd":
             return list(yastn.svd(a, axes=ax, sU=ar["s"], nU=ar["nU"]))
+        if ar["kind"] == "svdvals":
+            return [yastn.svd(a, axes=ax, sU=ar["s"], nU=ar["nU"], compute_uv=False)]
         return list(yastn.qr(a, axes=ax, sQ=ar["s"]))
 
     def shadow(self, task, rec, sins, outs, ins=None):
         a, ar = sins[0], rec["args"]
         gr = a.groups()
         l0, l1 = ar["axes"]
+        if ar["kind"] == "svdvals":
+            S = outs[0]
+            ls = S.get_legs(1)
+            nu = ULeg(a.sym, ls.s, [tuple(t) for t in ls.t] if a.sym.nsym else [()], list(ls.D))
+            task.extra_ulegs["s%d" % rec["id"]] = nu if nu.s == 1 else nu.conj()
+            axS = [nu.conj(), nu]
+            return [Shadow(obs_dense(task, S, axS), axS, ["e", "e"], a.sym.zero(), a.sym, True)]
         # the connecting leg is a new universe leg, read from the result
         if ar["kind"] == "svd":
             U, S, V = outs
@@ -1530,6 +1538,68 @@ class OpSvd(Op):
         trV = ["e"] + [a.tree[i] for i in l1]
         res.append(Shadow(obs_dense(task, V, axV), axV, trV, tuple(V.n), a.sym, False))
         return res
+
+
+@register
+class OpEighGram(Op):
+    """G = a . a^dagger over a bipartition, eigh(G), recombined U S U^dagger (gauge free) = G."""
+    name = "eigh_gram"
+
+    def gen(self, g):
+        a = g.pick_tensor(lambda s, v, sh: sh is not None and not sh.isdiag and sh.ndim >= 2 and len(sh.axes) <= 5 and v.size > 0)
+        if a is None:
+            return None
+        sa = g.sh(a)
+        l0, l1 = _bipartition(g, sa)
+        if 2 * _total_leaves(sa, l0) > 6:
+            return None
+        return {"op": "eigh_gram", "in": [a], "args": {"axes": [l0, l1], "s": g.rng.choice([-1, 1])}}
+
+    def run(self, task, rec, ins):
+        a, ar = ins[0], rec["args"]
+        l0, l1 = ar["axes"]
+        G = yastn.tensordot(a, a, axes=(tuple(l1), tuple(l1)), conj=(0, 1))
+        k = len(l0)
+        S, U = yastn.eigh(G, axes=(tuple(range(k)), tuple(range(k, 2 * k))), sU=ar["s"])
+        return [yastn.tensordot(U @ S, U, axes=(k, k), conj=(0, 1))]
+
+    def shadow(self, task, rec, sins, outs, ins=None):
+        a, ar = sins[0], rec["args"]
+        l0, l1 = ar["axes"]
+        return [tensordot_shadow(a, conj_shadow(a), l1, l1)]
+
+
+@register
+class OpObserve(Op):
+    """Read-only part of the public surface (returns no tensor): must leave everything untouched."""
+    name = "observe"
+
+    def nout(self, rec):
+        return 0
+
+    def gen(self, g):
+        a = g.pick_tensor()
+        if a is None:
+            return None
+        return {"op": "observe", "in": [a], "args": {}}
+
+    def run(self, task, rec, ins):
+        import io
+        a = ins[0]
+        a.get_legs(); a.get_legs(native=True); a.get_shape(); a.get_shape(native=True); a.get_signature(); a.get_rank()
+        a.get_tensor_charge(); a.get_blocks_charge(); a.get_blocks_shape(); a.get_dtype(); a.is_complex(); a.is_consistent()
+        a.to_numpy(); a.to_dense(); a.to_nonsymmetric(); str(a); repr(a); a.norm(); a.norm(p="inf")
+        a.print_properties(file=io.StringIO()); a.print_blocks_shape(file=io.StringIO())
+        a.allclose(a); a.are_independent(a.copy()); a.zero_of_dtype(); a.s; a.n; a.ndim; a.size; a.shape; a.dtype; a.yastn_dtype
+        (a.s_n, a.ndim_n, a.isdiag, a.requires_grad, a.device, a.data, a.trans)
+        if a.size == 1 or a.ndim == 0:
+            try:
+                a.to_number(); a.item()
+            except YastnError:
+                pass
+        if a.isdiag and a.yastn_dtype != 'bool':
+            yastn.entropy(abs(a))
+        return []
 
 
 @register
@@ -1710,7 +1780,7 @@ DEFAULT_WEIGHTS = {
     "rand": 3, "rand_diag": 1, "add": 3, "scal": 1.5, "conj": 2, "transpose": 3, "tensordot": 6, "vdot": 1.5,
     "trace": 2, "broadcast": 1.5, "apply_mask": 1, "diag": 1, "add_leg": 1, "remove_leg": 1, "fuse": 3,
     "fuse_pair": 2, "unfuse": 2, "meta_to_hard": 0.7, "elementwise": 1.5, "copy": 1.5, "ncon": 1.5,
-    "factor_recombine": 1, "svd": 1, "norm": 0.5, "swap_gate": 1,
+    "factor_recombine": 1, "svd": 1, "norm": 0.5, "swap_gate": 1, "eigh_gram": 0.7, "observe": 0.3,
 }
 
 
